@@ -43,7 +43,9 @@ ASSUMPTIONS = [
     "depth limits are naturals (a negative limit is outside the documented meaning and outside the model)",
     "limit=None is sys.maxsize = 2^63-1; 'unlimited => whole subtree' carries the hypothesis height <= maxsize",
     "names are non-empty, '/'-free and not UUID-like; types non-empty (name rules and name/id dispatch belong to C03)",
-    "no copy operations in the histories (same-id copies belong to C20/C04); handles of deleted entities are not queried",
+    "copies: only id-renewing section copies (copy_section(keep_id=False), deep or shallow, also into the own subtree) "
+    "through re-fetched handles; same-id copies and copies through link-reached handles belong to C20/C04; the builtin "
+    "NameError of a refused copy is reported as DuplicateName; handles of deleted entities are not queried",
     "children of a container iterate in HDF5 creation order (the oracle reads the creation-order index directly)",
 ]
 TRUSTED_EXTRA = ["harness/extract/findshape.py renders the shape of util/find.py (_find_sections/_find_sources), the four "
@@ -69,6 +71,10 @@ QUERY_OPS = ("find", "find_related", "parent", "parent_source", "parent_block", 
 def _errname(e):
     import nixio.exceptions as X
     if isinstance(e, X.DuplicateName):
+        return "DuplicateName"
+    if isinstance(e, NameError):
+        # copy_section refuses an existing name at the destination with the builtin NameError; C13 is not about
+        # the class of that refusal: reported under the model's duplicateName
         return "DuplicateName"
     for cls, nm in ((KeyError, "KeyError"), (IndexError, "IndexError"), (RuntimeError, "RuntimeError"),
                     (ValueError, "ValueError"), (TypeError, "TypeError"), (AttributeError, "AttributeError")):
@@ -136,6 +142,7 @@ class Impl:
         self.cached = {}     # key -> handle returned by Section.create_section / File.create_section
         self.id2key = {}
         self.next = 0
+        self.ncopies = 0
         self.names = NAMES
 
     def close(self):
@@ -322,6 +329,30 @@ class Impl:
                 del par.sources[h]
             self._sweep()
             return None
+        if op == "copy_section":
+            # id-renewing copy through re-fetched handles; the copy of the entity with key k gets key k + N,
+            # N = the id supply before the call, which then doubles (see Pure/Tree.lean, copyNode)
+            sent, src = self.get(line[1], ("section",))
+            if line[2] is None:
+                dpath, dest = [], f
+            else:
+                dent, dest = self.get(line[2], ("section",))
+                dpath = dent["path"]
+            before = [(k, dict(e)) for k, e in self.reg.items() if e["kind"] == "section"]
+            cp = dest.copy_section(src, children=bool(line[4]), keep_id=False, name=line[3])
+            nm = line[3] or sent["path"][-1]
+            n0 = self.next
+            sp = sent["path"]
+            for k, e in before:
+                if e["path"][:len(sp)] != sp or (not line[4] and len(e["path"]) != len(sp)):
+                    continue
+                npath = dpath + [nm] + e["path"][len(sp):]
+                h = self._nav({"kind": "section", "path": npath})
+                self.reg[k + n0] = {"kind": "section", "hkind": None, "path": npath, "id": h.id}
+                self.id2key[h.id] = k + n0
+            self.next = 2 * n0
+            self.ncopies += 1
+            return line[1] + n0
         if op == "reopen":
             f.close()
             self.cached = {}
@@ -463,6 +494,10 @@ def _gen_op(impl, rng, phase):
         return ["reopen"]
     if r < 0.685:
         return ["set_link", some("section"), None if rng.random() < 0.2 else some("section")]
+    if r < 0.70 and impl.ncopies < 4 and by["section"]:
+        dest = None if rng.random() < 0.3 else some("section")
+        return ["copy_section", some("section"), dest, "" if rng.random() < 0.6 else rng.choice(NAMES),
+                rng.random() < 0.75]
     # ---- queries -------------------------------------------------------------------------
     def sec_via(k, p_cached=0.2, p_md=0.3, p_found=0.15):
         """a handle description for the section k: re-fetched, cached, found, or through a metadata link"""
@@ -617,7 +652,7 @@ def shrink(ctx, lines, idx):
     rounds = 0
     while i >= 0 and rounds < 60:
         op = cand[i][0]
-        if not op.startswith("create"):
+        if not op.startswith("create") and op != "copy_section":
             t = cand[:i] + cand[i + 1:]
             rounds += 1
             if differs(t):
@@ -637,7 +672,7 @@ def _nontrivial(line, out):
         return v is not None
     if op in ("referring", "find_related"):
         return bool(v)
-    return op in ("delete", "reopen", "unlink_source", "del_metadata", "parent_block")
+    return op in ("delete", "reopen", "unlink_source", "del_metadata", "parent_block", "copy_section")
 
 
 def correspondence(ctx):
@@ -1045,6 +1080,12 @@ FIXED_CASES = [
      ["create_source", 2, "x", "t1"], ["create_source", 3, "y", "t2"], ["create_holder", 1, "data_array", "d", "t1"],
      ["create_holder", 1, "group", "g", "t1"], ["link_source", 5, 3], ["link_source", 6, 4], ["set_metadata", 3, 0],
      ["set_metadata", 4, 0], ["set_metadata", 5, 0]],
+    # copies (ids renewed): z/a/a, z copied into its own subtree below z/a/a, z/a copied to the top under its own
+    # name, shallow copy next to it; metadata links to an original and to a copy
+    [["create_section", None, "z", "t1"], ["create_section", 0, "a", "t1"], ["create_section", 1, "a", "t2"],
+     ["copy_section", 0, 2, "", True], ["copy_section", 1, None, "", True], ["copy_section", 3, None, "b", False],
+     ["create_block", "b", "t1"], ["create_source", 24, "x", "t1"], ["set_metadata", 25, 4], ["set_metadata", 24, 1],
+     ["set_link", 4, 1]],
 ]
 
 
